@@ -74,3 +74,15 @@ CLAIMED['C19'] = dict(
     note=('Decides that no field can differ unseen and that assignment validates before storing; does not prove == on '
           'concrete values. Trusted: descriptor protocol / __slots__ / dict equality of CPython.'),
     technique='typestate (validate-before-store) via abstract interpretation + __slots__/descriptor table lints + read-set analysis of __eq__')
+
+CLAIMED['C18'] = dict(
+    category='other',
+    text=('Ownership / alias / effect analysis on the abstract heap: scenarios (constructors, add_change/add_file, two parses '
+          'with one DOM reader object, serialisation twice, ==, repr, iteration, generate_stats) are abstractly executed; no '
+          'mutation event may have a SHARED receiver (module/class-level container, mutable default); separately created '
+          'trees and the sections of one tree share no mutable container; a reused DOM reader/writer never reads instance '
+          'state left by an earlier call (havoc of attributes stored outside __init__); observers emit no mutation event on '
+          'objects reachable from the tree; no memoised function returns a mutable value.'),
+    note=('Shows absence of aliasing and of writes on the modelled heap, not value equality of snapshots. The streaming '
+          'writer is stubbed while the DOM writer is analysed as observer (its own argument handling is covered by C09).'),
+    technique='ownership/alias analysis over an abstract heap + effect (mutation-event) analysis + decorator lint')
